@@ -185,6 +185,21 @@ def expected(case):
             if op.startswith("u") and f < 0 and t == 0:
                 return "Some(0)" if f > -1.0 else "None"
             return opt(hx(t))
+        if op in ("ufrom_radix_le", "ufrom_radix_be"):
+            r = I(0)
+            ds = [int(x, 16) for x in a[1:]]
+            if not 2 <= r <= 256:
+                return "PANIC"
+            if any(d >= r for d in ds):
+                return "None"
+            if op.endswith("be"):
+                ds = ds[::-1]
+            return opt(hx(sum(d * r ** k for k, d in enumerate(ds))))
+        if op == "shf":
+            x, k = I(4), I(5)
+            if k < 0:
+                return "PANIC"
+            return hx(x << k) if a[2] == "l" else hx(x >> k)
         if op == "powf":
             return hx(I(3) ** I(4))
         if op in ("upow_big_rv", "upow_big_rr", "ipow_big", "ipow_big_rv", "ipow_u8", "ipow_u128", "upow_u64"):
@@ -471,6 +486,31 @@ def expected(case):
         if op in ("ifrom_signed_bytes_le", "ifrom_signed_bytes_be"):
             b = bytes(int(x, 16) for x in a)
             return hx(int.from_bytes(b, "little" if op.endswith("le") else "big", signed=True)) if b else "0"
+        if op == "ufrom_slice":
+            return hx(sum(int(x, 16) << (32 * i) for i, x in enumerate(a)))
+        if op in ("ifrom_slice", "inew"):
+            return hx({"-": -1, "0": 0, "+": 1}[a[0]] * sum(int(x, 16) << (32 * i) for i, x in enumerate(a[1:])))
+        if op == "iassign_from_slice":
+            return hx({"-": -1, "0": 0, "+": 1}[a[1]] * sum(int(x, 16) << (32 * i) for i, x in enumerate(a[2:])))
+        if op in ("ugcd_lcm", "igcd_lcm"):
+            g = math.gcd(I(0), I(1))
+            return "%s %s" % (hx(g), hx(abs(I(0) * I(1)) // g if g else 0))
+        if op in ("uincdec", "iincdec"):
+            x = I(0)
+            if op[0] == "u" and x == 0:
+                return "PANIC"
+            return "%s %s %s" % (hx(x + 1), hx(x), hx(x - 1))
+        if op in ("utraitbytes", "itraitbytes"):
+            x = I(0)
+            if op[0] == "u":
+                le = list(x.to_bytes(max(1, (x.bit_length() + 7) // 8), "little"))
+            else:
+                k = 1
+                while not -(1 << (8 * k - 1)) <= x < (1 << (8 * k - 1)):
+                    k += 1
+                le = list(x.to_bytes(k, "little", signed=True))
+            fmt = lambda d: "[" + ", ".join(str(v) for v in d) + "]"
+            return "%s %s %s %s" % (fmt(le[::-1]), fmt(le), hx(x), hx(x))
         if op == "unew":
             return hx(sum(int(x, 16) << (32 * i) for i, x in enumerate(a)))
         if op == "uassign_from_slice":
@@ -776,6 +816,33 @@ def lens(tier):
     return base
 
 
+def scalar_cases(rng, ops, bigs=None):
+    """every scalar operator form (big op scalar, scalar op big, op-assign, by reference) for the operators `ops`, scalar
+    types u8..u128/usize/i8..i128/isize, scalar extremes (0, +-1, MAX, MIN, values needing 1, 2 or more native digits)"""
+    cases = []
+    utypes = {"u8": 8, "u16": 16, "u32": 32, "u64": 64, "u128": 128, "usize": 64}
+    itypes = {"i8": 8, "i16": 16, "i32": 32, "i64": 64, "i128": 128, "isize": 64}
+    if bigs is None:
+        bigs = [0, 1, B64 - 1, B64, (1 << 63), (1 << 127), (1 << 128) + (1 << 64) + 5, big(rng, 3)]
+    for x in bigs:
+        for ty, w in utypes.items():
+            svals = sorted(set([0, 1, (1 << w) - 1, 1 << (w - 1), min((1 << w) - 1, 1 << 32), min((1 << w) - 1, (1 << 64) + 5), rng.getrandbits(w)]))
+            for sv in svals:
+                for o in ops:
+                    for side in ("r", "l", "a", "rr"):
+                        cases.append(("sc", "u", ty, o, side, hx(x), hx(sv)))
+                        cases.append(("sc", "i", ty, o, side, hx(-x), hx(sv)))
+                        cases.append(("sc", "i", ty, o, side, hx(x), hx(sv)))
+        for ty, w in itypes.items():
+            svals = sorted(set([0, 1, -1, (1 << (w - 1)) - 1, -(1 << (w - 1)), -(1 << (w - 1)) + 1, min((1 << (w - 1)) - 1, (1 << 64) + 3), -min((1 << (w - 1)) - 1, (1 << 64) + 3), -rng.getrandbits(w - 1)]))
+            for sv in svals:
+                for o in ops:
+                    for side in ("r", "l", "a", "rr"):
+                        cases.append(("sc", "i", ty, o, side, hx(x), hx(sv)))
+                        cases.append(("sc", "i", ty, o, side, hx(-x), hx(sv)))
+    return cases
+
+
 def bank(pid, tier, seed):
     if pid == "C14":
         # "fails only in documented cases" spans the other properties' operations
@@ -817,6 +884,8 @@ def bank(pid, tier, seed):
                 for sb in (1, -1):
                     yield sa * a, sb * b
 
+    if pid == "C01":
+        cases += scalar_cases(rng, ("add", "sub"))
     if pid in ("C01", "C15"):
         for a, b in pairs(70 if tier == "quick" else None):
             for op in ("uadd", "uadd_assign", "uadd_vv", "uadd_vr"):
@@ -847,6 +916,7 @@ def bank(pid, tier, seed):
         cases.append(("usum",))
         cases.append(("isum",))
     elif pid == "C02":
+        cases += scalar_cases(rng, ("mul",))
         for a, b in pairs():
             cases.append(("umul", hx(a), hx(b)))
         # regime boundaries of mac3: schoolbook <= 32, half-Karatsuba (2x <= y), Karatsuba <= 256, Toom-3 above; unbalanced shapes
@@ -895,6 +965,8 @@ def bank(pid, tier, seed):
         cases.append(("uproduct",))
         cases.append(("iproduct",))
     elif pid in ("C03", "C14"):
+        if pid == "C03":
+            cases += scalar_cases(rng, ("div", "rem"))
         for a, b in pairs(66):
             for x, y in ((a, b), (a * b + (b // 2 if b else 0), b), (a * b, b), (a, a), (a + 1, a), (a, a + 1)):
                 for op in ("udivrem", "udiv", "urem", "udiv_ceil", "uchecked_div", "uchecked_div_rem_euclid", "uchecked_rem_euclid"):
@@ -1028,6 +1100,24 @@ def bank(pid, tier, seed):
                 cases.append(("umodinv", hx(bb), hx(m)))
                 cases.append(("imodinv", hx(-bb), hx(-m)))
     elif pid == "C06":
+        for r in (0, 1, 257, 1000):
+            cases.append(("ufrom_radix_le", hx(r), "1"))
+            cases.append(("ufrom_radix_be", hx(r), "1"))
+        for r in (2, 10, 256):
+            cases.append(("ufrom_radix_le", hx(r)))
+            cases.append(("ufrom_radix_be", hx(r), "0", "0", "1"))
+        # byte-digit import: a digit equal to the radix (and one above, one below) at every position, both orders
+        for r in (2, 3, 4, 8, 10, 16, 36, 100, 128, 255, 256):
+            for n in (1, 2, 5, 40):
+                for pos in sorted(set([0, n // 2, n - 1])):
+                    for dv in (r - 1, r, r + 1):
+                        if dv > 255:
+                            continue
+                        d = [rng.randrange(r) for _ in range(n)]
+                        d[-1] = max(d[-1], 1)
+                        d[pos] = dv
+                        cases.append(("ufrom_radix_le", hx(r)) + tuple(format(x, "x") for x in d))
+                        cases.append(("ufrom_radix_be", hx(r)) + tuple(format(x, "x") for x in reversed(d)))
         for a, _ in pairs(8):
             for r in (2, 3, 7, 8, 10, 16, 32, 36):
                 cases.append(("uto_str", hx(a), hx(r)))
@@ -1109,6 +1199,29 @@ def bank(pid, tier, seed):
                 cases.append(("ibit", hx(a), hx(k)))
                 cases.append(("iset_bit", hx(a), hx(k), "1"))
                 cases.append(("iset_bit", hx(a), hx(k), "0"))
+        # every shift form for every shift-amount type; right shifts of negatives whose trailing-zero count exceeds what the
+        # shift type can hold (the round-toward-minus-infinity rule compares the two), amounts at the type's extremes
+        SHT = {"u8": 8, "u16": 16, "u32": 32, "u64": 64, "u128": 128, "usize": 64, "i8": 7, "i16": 15, "i32": 31, "i64": 63, "i128": 127, "isize": 63}
+        for ty, w in SHT.items():
+            kmax = (1 << w) - 1
+            for tz in (0, 1, 63, 64, 127, 128, 129, 255, 256, 257, 300) + ((32767, 32768, 65535, 65536, 65537) if w <= 16 else ()):
+                for odd in (1, 3, B64 + 1):
+                    for k in sorted(set(kk for kk in (0, 1, 2, 63, 64, 65, 127, 128, 200, 255, 256, tz - 1, tz, tz + 1, kmax) if 0 <= kk <= min(kmax, 70000))):
+                        for form in ("v", "r", "a"):
+                            if form != "v" and not (k in (1, tz, kmax) or tz in (128, 256, 32768, 65536)):
+                                continue
+                            cases.append(("shf", "i", ty, "r", form, hx(-(odd << tz)), hx(k)))
+                            if odd == 3:
+                                cases.append(("shf", "i", ty, "r", form, hx(odd << tz), hx(k)))
+                                cases.append(("shf", "u", ty, "r", form, hx(odd << tz), hx(k)))
+            for k in (0, 1, 63, 64, 65, min(kmax, 200)):
+                for form in ("v", "r", "a"):
+                    cases.append(("shf", "i", ty, "l", form, hx(-(B64 + 5)), hx(k)))
+                    cases.append(("shf", "u", ty, "l", form, hx(B64 + 5), hx(k)))
+            if ty.startswith("i"):
+                for form in ("v", "r", "a"):
+                    cases.append(("shf", "i", ty, "r", form, hx(-5), hx(-1)))
+                    cases.append(("shf", "u", ty, "l", form, hx(5), hx(-(1 << w))))
         # powers of two and their neighbours across digit boundaries, all sign pairs, both operand orders
         P2S = [(1 << k) + d for k in (0, 1, 63, 64, 65, 127, 128, 129, 192, 256) for d in (-1, 0, 1) if (1 << k) + d > 0]
         for x in P2S:
@@ -1261,27 +1374,46 @@ def bank(pid, tier, seed):
             nd = (a.bit_length() + 63) // 64
             for k in sorted(set([0, 1, max(nd - 1, 0), nd, nd + 1])):
                 cases.append(("uiter64_nth", hx(a), hx(k)))
+            # unsigned byte import (leading zero bytes allowed), u32-digit constructors (odd counts, trailing zero digits)
+            for pad in (0, 1, 9):
+                dd = d + ["0"] * pad
+                cases.append(("ufrom_bytes_le",) + tuple(dd))
+                cases.append(("ufrom_bytes_be",) + tuple(reversed(dd)))
+            w32 = [format((a >> (32 * i)) & 0xffffffff, "x") for i in range(max(1, (a.bit_length() + 31) // 32))]
+            for pad in (0, 1, 2, 3):
+                cases.append(("unew",) + tuple(w32 + ["0"] * pad))
+                cases.append(("uassign_from_slice", hx(big(rng, 3))) + tuple(w32 + ["0"] * pad))
+            # two's-complement import: minimal encodings, sign-extended ones, both signs
+            for v in (a, -a, a >> 1, -(a >> 1)):
+                k = (v.bit_length() // 8) + 1
+                for extra in (0, 1, 8):
+                    bs = [format(x, "x") for x in v.to_bytes(k + extra, "little", signed=True)]
+                    cases.append(("ifrom_signed_bytes_le",) + tuple(bs))
+                    cases.append(("ifrom_signed_bytes_be",) + tuple(reversed(bs)))
+        for bs in ([], ["0"], ["80"], ["ff"], ["7f"], ["0", "80"], ["80", "0"], ["ff", "7f"], ["0", "0", "80"], ["ff", "ff", "ff"], ["0"] * 9, ["ff"] * 9, ["0"] * 8 + ["80"], ["80"] + ["0"] * 8):
+            for op in ("ifrom_signed_bytes_le", "ifrom_signed_bytes_be", "ufrom_bytes_le", "ufrom_bytes_be"):
+                cases.append((op,) + tuple(bs))
+        cases.append(("unew",))
+        for a, _ in list(pairs(5))[::3]:
+            w32 = [format((a >> (32 * i)) & 0xffffffff, "x") for i in range(max(1, (a.bit_length() + 31) // 32))]
+            for pad in (0, 1, 2):
+                cases.append(("ufrom_slice",) + tuple(w32 + ["0"] * pad))
+                for sg_ in ("-", "0", "+"):
+                    cases.append(("ifrom_slice", sg_) + tuple(w32 + ["0"] * pad))
+                    cases.append(("inew", sg_) + tuple(w32 + ["0"] * pad))
+                    cases.append(("iassign_from_slice", hx(-big(rng, 2)), sg_) + tuple(w32 + ["0"] * pad))
+            cases.append(("utraitbytes", hx(a)))
+            cases.append(("itraitbytes", hx(a)))
+            cases.append(("itraitbytes", hx(-a)))
+        for k in range(1, 10):
+            for v in (-(1 << (8 * k - 1)), (1 << (8 * k - 1)) - 1, (1 << (8 * k - 1)), -(1 << (8 * k - 1)) - 1):
+                cases.append(("itraitbytes", hx(v)))
+        for sg_ in ("-", "0", "+"):
+            cases.append(("ifrom_slice", sg_))
+            cases.append(("ifrom_slice", sg_, "0", "0"))
     elif pid == "C10":
-        utypes = {"u8": 8, "u32": 32, "u64": 64, "u128": 128, "usize": 64}
-        itypes = {"i8": 8, "i32": 32, "i64": 64, "i128": 128, "isize": 64}
-        bigs = [0, 1, 2, B64 - 1, B64, B64 + 1, (1 << 128) - 1, 1 << 128, (1 << 128) + (1 << 64), big(rng, 3), big(rng, 4, "ones"), big(rng, 5)]
-        for x in bigs:
-            for ty, w in utypes.items():
-                svals = sorted(set([0, 1, 2, (1 << w) - 1, 1 << (w - 1), (1 << (w - 1)) + 1, min((1 << w) - 1, 1 << 32), min((1 << w) - 1, (1 << 64) + 5), rng.getrandbits(w)]))
-                for sv in svals:
-                    for o in ("add", "sub", "mul", "div", "rem"):
-                        for side in ("r", "l", "a", "rr"):
-                            cases.append(("sc", "u", ty, o, side, hx(x), hx(sv)))
-                            if ty in ("u32", "u64", "u128"):
-                                cases.append(("sc", "i", ty, o, side, hx(-x), hx(sv)))
-                                cases.append(("sc", "i", ty, o, side, hx(x), hx(sv)))
-            for ty, w in itypes.items():
-                svals = sorted(set([0, 1, -1, 2, -2, (1 << (w - 1)) - 1, -(1 << (w - 1)), -(1 << (w - 1)) + 1, rng.getrandbits(w - 1), -rng.getrandbits(w - 1)]))
-                for sv in svals:
-                    for o in ("add", "sub", "mul", "div", "rem"):
-                        for side in ("r", "l", "a", "rr"):
-                            cases.append(("sc", "i", ty, o, side, hx(x), hx(sv)))
-                            cases.append(("sc", "i", ty, o, side, hx(-x), hx(sv)))
+        bigs = [0, 1, 2, B64 - 1, B64, B64 + 1, (1 << 63), (1 << 127), (1 << 128) - 1, 1 << 128, (1 << 128) + (1 << 64), big(rng, 3), big(rng, 4, "ones"), big(rng, 5)]
+        cases += scalar_cases(rng, ("add", "sub", "mul", "div", "rem"), bigs=bigs)
         for a in [0, 1, 2, 3, B64, big(rng, 2)]:
             for e in (0, 1, 2, 3, 5, 10, 64):
                 for op in ("upow_big", "upow_big_rv", "upow_big_rr", "upow_u64"):
@@ -1289,6 +1421,14 @@ def bank(pid, tier, seed):
                 for op in ("ipow_big", "ipow_big_rv", "ipow_u8", "ipow_u128"):
                     cases.append((op, hx(-a), hx(e)))
                     cases.append((op, hx(a), hx(e)))
+        # every shift form: {BigUint, BigInt} x {<<, >>} x 12 shift-amount types x {value, reference, assign}
+        for ty, w in {"u8": 8, "u16": 16, "u32": 32, "u64": 64, "u128": 128, "usize": 64, "i8": 7, "i16": 15, "i32": 31, "i64": 63, "i128": 127, "isize": 63}.items():
+            for x in (0, 1, B64 - 1, (3 << 128) + 1, 5 << 130):
+                for k in (0, 1, 64, 100, min((1 << w) - 1, 130)):
+                    for form in ("v", "r", "a"):
+                        for d in ("l", "r"):
+                            cases.append(("shf", "u", ty, d, form, hx(x), hx(k)))
+                            cases.append(("shf", "i", ty, d, form, hx(-x), hx(k)))
         # every Pow form: {BigUint, BigInt} x {u8..u128, usize, BigUint exponent} x {base, exponent by value / by reference}
         for a in (0, 1, 2, 3, B64 + 1):
             for e in (0, 1, 2, 3, 6, 7):
@@ -1386,8 +1526,15 @@ def bank(pid, tier, seed):
                     cases.append((op, hx(a), hx(e)))
     elif pid == "C13":
         for a, b in signed(pairs(5)):
-            for op in ("igcd", "ilcm", "iis_multiple_of"):
+            for op in ("igcd", "ilcm", "iis_multiple_of", "igcd_lcm"):
                 cases.append((op, hx(a), hx(b)))
+        for a, b in pairs(5):
+            cases.append(("ugcd_lcm", hx(a), hx(b)))
+            cases.append(("ugcd_lcm", hx(a * b), hx(b)))
+        for a in [0, 1, 2, B64 - 1, B64, B64 + 1, (1 << 128) - 1, 1 << 128, big(rng, 3, "ones"), big(rng, 4)]:
+            cases.append(("uincdec", hx(a)))
+            cases.append(("iincdec", hx(a)))
+            cases.append(("iincdec", hx(-a)))
         for a, b in pairs(6):
             for op in ("ugcd", "ulcm", "uis_multiple_of", "unext_multiple_of", "uprev_multiple_of"):
                 cases.append((op, hx(a), hx(b)))
